@@ -11,8 +11,8 @@ import (
 // model JSON decoder (vJSONQueue) in place of encoding/json.
 func HarnessC08JsonLinesScan() {
 	E := int(vConcretize(vNondetInt("E", 1, 3)))
-	limit := uint(vNondetInt("limit", 0, 3))
-	passes := uint(vNondetInt("passes", 0, 3))
+	limit := uint(vNondetInt("limit", 0, vHi(3, 8)))
+	passes := uint(vNondetInt("passes", 0, vHi(3, 8)))
 	vAssume(limit != 0 || passes != 0)
 	tags := []string{"t1", "t2", "t3"}
 	var lines []string
